@@ -6,7 +6,7 @@
 EXTENDS ObjNames, Json, IOUtils
 Traces == JsonDeserialize(IOEnv.TRACE_FILE)
 VARIABLES t, l
-tvars == <<d, intdirs, s1, s2, t, l>>
+tvars == <<d, intdirs, s1, s2, td, t, l>>
 Say(x) == PrintT(ToJson(x))
 Reject(clause, info) == Say(<<"REJECT", Traces[t].id, clause, l, info>>) /\ FALSE
 Need(cond, clause, info) == IF cond THEN TRUE ELSE Reject(clause, info)
@@ -33,14 +33,14 @@ Drift(e) == e.exit = 0 /\ e.kind \in {"executable", "static_library", "shared_li
             \E k \in 1..Len(e.outs) :
                LET s == e.sources[e.outs[k].i]
                    cs == e.outs[k].comps
-                   m == ObjPath(e.d, "prog", e.intdirs, s) IN
+                   m == ObjPathT(e.d, e.tdirs, "prog", e.intdirs, s) IN
                cs # Front(m) \o <<Last(m) \o ".o">>
 
 TraceInit == /\ t \in 1..Len(Traces) /\ l = 1
-             /\ d = 0 /\ intdirs = FALSE /\ s1 = 0 /\ s2 = 0
+             /\ d = 0 /\ intdirs = FALSE /\ s1 = 0 /\ s2 = 0 /\ td = <<>>
 TraceNext == /\ l <= Len(Traces[t].events)
              /\ CheckCase(Traces[t].events[l])
              /\ (Drift(Traces[t].events[l]) => Say(<<"INFO", "SPEC-DRIFT", Traces[t].id>>))
-             /\ l' = l + 1 /\ UNCHANGED <<d, intdirs, s1, s2, t>>
+             /\ l' = l + 1 /\ UNCHANGED <<d, intdirs, s1, s2, td, t>>
 TraceSpec == TraceInit /\ [][TraceNext]_tvars
 =============================================================================
